@@ -638,7 +638,7 @@ pub fn gen(r: &mut Rng, thorough: bool) -> Vec<(String, String)> {
                 let args = format!("{} {} {} {}", hmesh(oriented, &mv, &mi), d3::hv(&nrm), hx(bias), hx(eps));
                 v.push(("tm_split".into(), args.clone()));
                 v.push(("tm_verdict".into(), args.clone()));
-                v.push(("tm_cut".into(), args.clone()));
+                if v.len() % 2 == 0 { v.push(("tm_cut".into(), args.clone())); }
                 v.push(("tm_section".into(), args));
             }
             if it % 8 == 0 {
